@@ -1,34 +1,171 @@
 // Unit scanindex: src/scanindex.rs -- ScanIndex::from_reader: segmentation of pbulk-index output into one record
-// per PKGNAME= line, whole-read failure (C16, C17).  The serde Deserialize impl (per-field mapping) is outside the
-// verifier's reach: `index_of` is uninterpreted and the impl is pinned (watch).
+// per PKGNAME= line, whole-read failure; KeyValue::visit_str; impl Deserialize for ScanIndex (the per-field mapping) and
+// str_to_index (C16, C17).  serde itself is a unit-local model: a Deserializer is a value with an uninterpreted "text it hands to
+// visit_str"; the constructors of the field types (PkgName::new, PkgPath::new, Depend::new) are functions of their argument
+// (their full contracts are proved in units pkgname / pkgpath).
 //@ unit scanindex
 #![allow(unused_imports)]
 use vstd::prelude::*;
 use vstd::utf8::*;
 use vstd::string::*;
 use std::io;
+use std::fmt;
 use std::io::BufRead;
 use std::collections::HashMap;
+use std::ffi::{OsStr, OsString};
+use std::os::unix::ffi::{OsStrExt, OsStringExt};
+use std::path::PathBuf;
+use std::string::FromUtf8Error;
 use vstd::std_specs::iter::IteratorSpec;
 verus! {
 
 //@ include lib/std_str.rs
+//@ include lib/std_os.rs
+//@ include lib/std_fmt.rs
 
 #[verifier::external_type_specification]
 #[verifier::external_body]
 pub struct ExIoError(io::Error);
+#[verifier::external_type_specification]
+#[verifier::external_body]
+pub struct ExFromUtf8Error(FromUtf8Error);
 #[verifier::external_trait_specification]
 pub trait ExRead { type ExternalTraitSpecificationFor: std::io::Read; }
 #[verifier::external_trait_specification]
 pub trait ExBufRead: std::io::Read { type ExternalTraitSpecificationFor: std::io::BufRead; }
 
-/// one parsed record (opaque: its fields are produced by the serde Deserialize impl, which is not verified)
+// ---- the field types: opaque here.  Each constructor is a function of its argument's characters (uninterpreted *_of; what it
+// accepts and what it builds is proved in units pkgname / pkgpath against the real bodies)
 #[verifier::external_body]
-pub struct ScanIndex { _p: () }
-pub struct ScanV { pub id: int }
-impl ScanIndex { pub uninterp spec fn view(&self) -> ScanV; }
-/// the record built from one block of 'KEY=VALUE' lines (None: the block is rejected - no PKGNAME, bad ALL_DEPENDS item, bad PKG_LOCATION)
-pub uninterp spec fn index_of(block: Seq<char>) -> Option<ScanV>;
+pub struct PkgName { _p: () }
+#[verifier::external_body]
+pub struct PkgPath { _p: () }
+#[verifier::external_body]
+pub struct PkgPathError { _p: () }
+#[verifier::external_body]
+pub struct Depend { _p: () }
+#[verifier::external_body]
+pub struct DependError { _p: () }
+pub uninterp spec fn pkgname_of(s: Seq<char>) -> PkgName;
+pub uninterp spec fn pkgpath_of(s: Seq<char>) -> Option<PkgPath>;
+pub uninterp spec fn depend_of(s: Seq<char>) -> Option<Depend>;
+impl PkgName {
+    #[verifier::external_body]
+    pub fn new(pkgname: &str) -> (r: PkgName) ensures r == pkgname_of(pkgname@) { unimplemented!() }
+}
+impl PkgPath {
+    #[verifier::external_body]
+    pub fn new(path: &str) -> (r: Result<PkgPath, PkgPathError>)
+        ensures (match pkgpath_of(path@) { Some(p) => r is Ok && r->Ok_0 == p, None => r is Err })
+    { unimplemented!() }
+}
+impl Depend {
+    #[verifier::external_body]
+    pub fn new(s: &str) -> (r: Result<Depend, DependError>)
+        ensures (match depend_of(s@) { Some(d) => r is Ok && r->Ok_0 == d, None => r is Err })
+    { unimplemented!() }
+}
+
+//@ extract src/scanindex.rs : struct ScanIndex
+pub struct ScanIndex {
+    pub pkgname: PkgName,
+    pub pkg_location: Option<PkgPath>,
+    pub all_depends: Vec<Depend>,
+    pub pkg_skip_reason: Option<String>,
+    pub pkg_fail_reason: Option<String>,
+    pub no_bin_on_ftp: Option<String>,
+    pub restricted: Option<String>,
+    pub categories: Option<String>,
+    pub maintainer: Option<String>,
+    pub use_destdir: Option<String>,
+    pub bootstrap_pkg: Option<String>,
+    pub usergroup_phase: Option<String>,
+    pub scan_depends: Vec<PathBuf>,
+    pub pbulk_weight: Option<String>,
+    pub multi_version: Vec<String>,
+    pub depends: Vec<PkgName>,
+}
+//@ end
+/// a record as mathematical values
+pub struct ScanV {
+    pub pkgname: PkgName,
+    pub pkg_location: Option<PkgPath>,
+    pub all_depends: Seq<Depend>,
+    pub pkg_skip_reason: Option<Seq<char>>,
+    pub pkg_fail_reason: Option<Seq<char>>,
+    pub no_bin_on_ftp: Option<Seq<char>>,
+    pub restricted: Option<Seq<char>>,
+    pub categories: Option<Seq<char>>,
+    pub maintainer: Option<Seq<char>>,
+    pub use_destdir: Option<Seq<char>>,
+    pub bootstrap_pkg: Option<Seq<char>>,
+    pub usergroup_phase: Option<Seq<char>>,
+    pub scan_depends: Seq<Seq<u8>>,
+    pub pbulk_weight: Option<Seq<char>>,
+    pub multi_version: Seq<Seq<char>>,
+    pub depends: Seq<PkgName>,
+}
+pub open spec fn ostr(o: Option<String>) -> Option<Seq<char>> { match o { Some(s) => Some(s@), None => None } }
+pub open spec fn vstrs(v: Seq<String>) -> Seq<Seq<char>> { Seq::new(v.len(), |i: int| v[i]@) }
+pub open spec fn vpaths(v: Seq<PathBuf>) -> Seq<Seq<u8>> { Seq::new(v.len(), |i: int| pbb(&v[i])) }
+impl ScanIndex {
+    pub open spec fn view(&self) -> ScanV {
+        ScanV {
+            pkgname: self.pkgname, pkg_location: self.pkg_location, all_depends: self.all_depends@,
+            pkg_skip_reason: ostr(self.pkg_skip_reason), pkg_fail_reason: ostr(self.pkg_fail_reason), no_bin_on_ftp: ostr(self.no_bin_on_ftp),
+            restricted: ostr(self.restricted), categories: ostr(self.categories), maintainer: ostr(self.maintainer),
+            use_destdir: ostr(self.use_destdir), bootstrap_pkg: ostr(self.bootstrap_pkg), usergroup_phase: ostr(self.usergroup_phase),
+            scan_depends: vpaths(self.scan_depends@), pbulk_weight: ostr(self.pbulk_weight), multi_version: vstrs(self.multi_version@),
+            depends: self.depends@,
+        }
+    }
+}
+/// str::split_whitespace(): the maximal runs of non-whitespace characters, in order (uninterpreted)
+pub uninterp spec fn words(s: Seq<char>) -> Seq<Seq<char>>;
+/// the dependencies built from the first n items (None: one of them is rejected by Depend::new)
+pub open spec fn deps_upto(ws: Seq<Seq<char>>, n: int) -> Option<Seq<Depend>> decreases n {
+    if n <= 0 || n > ws.len() { Some(Seq::<Depend>::empty()) } else {
+        match deps_upto(ws, n - 1) {
+            None => None,
+            Some(s) => match depend_of(ws[n - 1]) { None => None, Some(d) => Some(s.push(d)) },
+        }
+    }
+}
+pub open spec fn words_utf8(ws: Seq<Seq<char>>) -> Seq<Seq<u8>> { Seq::new(ws.len(), |i: int| encode_utf8(ws[i])) }
+/// statement of C16 for one block of 'KEY=VALUE' lines (kv_spec below: trimmed value of the LAST line for the key): scalar fields
+/// hold that value, list fields its whitespace-separated items in order, absent keys are None / empty; None - the block is
+/// rejected - when PKGNAME is absent, PKG_LOCATION is not a valid package path or an ALL_DEPENDS item is not a valid dependency
+pub open spec fn index_of(block: Seq<char>) -> Option<ScanV> {
+    let name = kv_spec(block, "PKGNAME"@);
+    let loc: Option<Option<PkgPath>> = match kv_spec(block, "PKG_LOCATION"@) {
+        None => Some(None),
+        Some(v) => match pkgpath_of(v) { None => None, Some(p) => Some(Some(p)) },
+    };
+    let deps: Option<Seq<Depend>> = match kv_spec(block, "ALL_DEPENDS"@) {
+        None => Some(Seq::<Depend>::empty()),
+        Some(v) => deps_upto(words(v), words(v).len() as int),
+    };
+    if name is None || loc is None || deps is None { None } else {
+        Some(ScanV {
+            pkgname: pkgname_of(name->Some_0),
+            pkg_location: loc->Some_0,
+            all_depends: deps->Some_0,
+            pkg_skip_reason: kv_spec(block, "PKG_SKIP_REASON"@),
+            pkg_fail_reason: kv_spec(block, "PKG_FAIL_REASON"@),
+            no_bin_on_ftp: kv_spec(block, "NO_BIN_ON_FTP"@),
+            restricted: kv_spec(block, "RESTRICTED"@),
+            categories: kv_spec(block, "CATEGORIES"@),
+            maintainer: kv_spec(block, "MAINTAINER"@),
+            use_destdir: kv_spec(block, "USE_DESTDIR"@),
+            bootstrap_pkg: kv_spec(block, "BOOTSTRAP_PKG"@),
+            usergroup_phase: kv_spec(block, "USERGROUP_PHASE"@),
+            scan_depends: match kv_spec(block, "SCAN_DEPENDS"@) { None => Seq::<Seq<u8>>::empty(), Some(v) => words_utf8(words(v)) },
+            pbulk_weight: kv_spec(block, "PBULK_WEIGHT"@),
+            multi_version: match kv_spec(block, "MULTI_VERSION"@) { None => Seq::<Seq<char>>::empty(), Some(v) => words(v) },
+            depends: Seq::<PkgName>::empty(),
+        })
+    }
+}
 
 /// the lines the reader yields: Ok(text) or an I/O error
 pub type WLine = core::result::Result<Seq<char>, ()>;
@@ -72,11 +209,6 @@ pub open spec fn scan_spec(lines: Seq<WLine>) -> core::result::Result<Seq<ScanV>
 pub open spec fn views(v: Seq<ScanIndex>) -> Seq<ScanV> { Seq::new(v.len(), |i: int| v[i].view()) }
 
 impl ScanIndex {
-    #[verifier::external_body]
-    fn str_to_index(input: &str) -> (r: io::Result<ScanIndex>)
-        ensures (match index_of(input@) { Some(v) => r is Ok && r->Ok_0.view() == v, None => r is Err })
-    { unimplemented!() }
-
 //@ extract src/scanindex.rs : impl ScanIndex fn from_reader
 //@ rewrite D6.reader_lines D6.str_trim D6.line_starts_with_lit D17.continue_to_else
     pub fn from_reader<R: BufRead>(reader: R) -> (r: io::Result<Vec<ScanIndex>>)
@@ -166,6 +298,14 @@ fn shim_split_once_char<'a>(s: &'a str, c: char) -> (r: Option<(&'a str, &'a str
 pub struct DeErr { pub _p: () }
 pub struct KeyValue;
 impl KeyValue {
+//@ extract src/scanindex.rs : impl Visitor for KeyValue fn expecting
+//@ rewrite D8.formatter_write_str
+    fn expecting(&self, formatter: &mut fmt::Formatter) -> (r: fmt::Result)
+        ensures r is Ok ==> fout(final(formatter)) == fout(old(formatter)) + "A stream of the format KEY=VALUE"@
+    {
+        formatter.write_str("A stream of the format KEY=VALUE")
+    }
+//@ end
 //@ extract src/scanindex.rs : impl Visitor for KeyValue fn visit_str
 //@ rewrite D9.serde_visit_str_sig D6.str_lines D6.split_once_char D6.trim_to_string
     fn visit_str(self, value: &str) -> (r: Result<HashMap<String, String>, DeErr>)
@@ -202,17 +342,79 @@ impl KeyValue {
 
 pub proof fn lemma_pkgname_lit() ensures "PKGNAME="@ == PKGNAME_EQ() { reveal_strlit("PKGNAME="); assert("PKGNAME="@ =~= PKGNAME_EQ()); }
 
-} // verus!
-// Outside the verifier's reach (generic over serde's Deserializer/Visitor traits, macro_rules-generated field accessors, external
-// crate): pinned.  Any change makes the unit undecided and the bounded stand-in of C16 (replay search against the field-level
-// oracle) runs instead.
-//@ watch src/scanindex.rs : impl Deserialize for ScanIndex fn deserialize
-    fn deserialize<D>(deserializer: D) -> Result<Self, D::Error>
+// ---- serde, as far as this file uses it (serde's own traits cannot be imported into single-file Verus)
+/// stands for serde::de::Error
+pub trait DeError: Sized {}
+/// stands for serde::Deserializer<'de>; de_text: the string a deserializer hands to Visitor::visit_str when asked for a str
+/// (None: it reports an error instead)
+pub trait Deserializer<'de>: Sized { type Error: DeError; }
+pub uninterp spec fn de_text<D>(d: D) -> Option<Seq<char>>;
+/// stands for serde::de::value::StrDeserializer<'_, serde::de::value::Error>
+#[verifier::external_body]
+pub struct StrDe { _p: () }
+#[verifier::external_body]
+pub struct ValueErr { _p: () }
+impl DeError for ValueErr {}
+impl<'de> Deserializer<'de> for StrDe { type Error = ValueErr; }
+// shim D9.str_deserializer_new
+#[verifier::external_body]
+fn shim_str_deserializer(input: &str) -> (r: StrDe) ensures de_text(r) == Some(input@) { unimplemented!() }
+// shim D9.deserialize_str_kv: deserializer.deserialize_str(KeyValue) - visit_str (proved above) on the deserializer's text
+#[verifier::external_body]
+fn shim_deserialize_kv<'de, D: Deserializer<'de>>(d: D) -> (r: Result<HashMap<String, String>, D::Error>)
+    ensures (match de_text(d) { Some(t) => r is Ok && (forall|k: Seq<char>| sget(r->Ok_0@, k) == kv_spec(t, k)), None => r is Err })
+{ unimplemented!() }
+// shim: HashMap<String,String>::get(key) as Option<&str>
+#[verifier::external_body]
+fn shim_get<'a>(m: &'a HashMap<String, String>, k: &str) -> (r: Option<&'a str>)
+    ensures (match sget(m@, k@) { Some(v) => r is Some && r->Some_0@ == v, None => r is None })
+{ m.get(k).map(|v| v.as_str()) }
+// shim D9.map_get_reqd: map.get(key).ok_or(de::Error::missing_field(name))
+#[verifier::external_body]
+fn shim_get_reqd<'a, E: DeError>(m: &'a HashMap<String, String>, k: &str, field: &'static str) -> (r: Result<&'a str, E>)
+    ensures (match sget(m@, k@) { Some(v) => r is Ok && r->Ok_0@ == v, None => r is Err })
+{ unimplemented!() }
+// shim D9.map_get_string: map.get(key).map(String::from)
+#[verifier::external_body]
+fn shim_get_string(m: &HashMap<String, String>, k: &str) -> (r: Option<String>)
+    ensures ostr(r) == sget(m@, k@)
+{ m.get(k).map(String::from) }
+// shim: de::Error::custom(e)
+#[verifier::external_body]
+fn shim_de_custom<E: DeError, T>(e: T) -> (r: E) { unimplemented!() }
+// shim: v.split_whitespace().collect()
+#[verifier::external_body]
+fn shim_words<'a>(v: &'a str) -> (r: Vec<&'a str>)
+    ensures r@.len() == words(v@).len(), forall|i: int| 0 <= i < r@.len() ==> (#[trigger] r@[i])@ == words(v@)[i]
+{ v.split_whitespace().collect() }
+// shim D9.map_get_words_strings: v.split_whitespace().map(String::from).collect()
+#[verifier::external_body]
+fn shim_words_strings(v: &str) -> (r: Vec<String>)
+    ensures vstrs(r@) == words(v@)
+{ v.split_whitespace().map(String::from).collect() }
+// shim D9.map_get_words_paths: v.split_whitespace().map(PathBuf::from).collect()
+#[verifier::external_body]
+fn shim_words_paths(v: &str) -> (r: Vec<PathBuf>)
+    ensures vpaths(r@) == words_utf8(words(v@))
+{ v.split_whitespace().map(PathBuf::from).collect() }
+// shim D9.deserialize_map_err_io: io::Error::new(InvalidData, format!("Failed to parse: {}", e))
+#[verifier::external_body]
+fn shim_invalid_data<T>(e: T) -> (r: io::Error) { unimplemented!() }
+
+impl ScanIndex {
+//@ extract src/scanindex.rs : impl Deserialize for ScanIndex fn deserialize
+//@ rewrite D7.expand_macros D9.serde_deserialize_sig D9.deserialize_str_kv D9.map_get_reqd D9.map_get_pkgpath D9.map_get_string D9.map_get_words_strings D9.map_get_words_paths D9.map_get_words_depends
+    fn deserialize<'de, D>(deserializer: D) -> (r: Result<Self, D::Error>)
     where
         D: Deserializer<'de>,
+        ensures (match de_text(deserializer) {
+            None => r is Err,
+            Some(t) => match index_of(t) { Some(v) => r is Ok && r->Ok_0.view() == v, None => r is Err },
+        })
     {
+        let ghost t = de_text(deserializer)->Some_0;
         let map: HashMap<String, String> =
-            deserializer.deserialize_str(KeyValue)?;
+            shim_deserialize_kv(deserializer)?;
 
         /* A mandatory single-type value */
         macro_rules! var_reqd {
@@ -266,26 +468,41 @@ pub proof fn lemma_pkgname_lit() ensures "PKGNAME="@ == PKGNAME_EQ() { reveal_st
         }
 
         let all_depends: Vec<Depend> =
-            var_vec_result!(Depend::new, "ALL_DEPENDS");
-        let pkgname = var_reqd!(PkgName::new, "PKGNAME");
+            ( match shim_get ( & map , "ALL_DEPENDS" ) { None => Vec :: new ( ) , Some ( v ) => { let __ws = shim_words ( v ) ; let mut __out = Vec :: new ( ) ; let mut __i : usize = 0 ;
+            while __i < __ws . len ( )
+                invariant
+                    __i <= __ws@.len(), __ws@.len() == words(v@).len(),
+                    forall|i: int| 0 <= i < __ws@.len() ==> (#[trigger] __ws@[i])@ == words(v@)[i],
+                    deps_upto(words(v@), __i as int) == Some(__out@),
+                decreases __ws@.len() - __i
+            { match Depend :: new ( __ws [ __i ] ) { Ok ( __d ) => { __out . push ( __d ) ; } Err ( __e ) => {
+                proof { lemma_deps_fail(words(v@), __i as int + 1, words(v@).len() as int); }
+                return Err ( shim_de_custom ( __e ) ) ; } } __i += 1 ; } __out } } );
+        let pkgname = PkgName :: new ( shim_get_reqd :: < D :: Error > ( & map , "PKGNAME" , "PKGNAME" ) ? );
         /* No idea why this isn't PKGPATH */
-        let pkg_location = var_opt_result!(PkgPath::new, "PKG_LOCATION");
-        let pkg_skip_reason = var_opt!(String::from, "PKG_SKIP_REASON");
-        let pkg_fail_reason = var_opt!(String::from, "PKG_FAIL_REASON");
-        let no_bin_on_ftp = var_opt!(String::from, "NO_BIN_ON_FTP");
-        let restricted = var_opt!(String::from, "RESTRICTED");
-        let categories = var_opt!(String::from, "CATEGORIES");
-        let maintainer = var_opt!(String::from, "MAINTAINER");
-        let use_destdir = var_opt!(String::from, "USE_DESTDIR");
-        let bootstrap_pkg = var_opt!(String::from, "BOOTSTRAP_PKG");
-        let usergroup_phase = var_opt!(String::from, "USERGROUP_PHASE");
-        let scan_depends = var_vec!(PathBuf::from, "SCAN_DEPENDS");
-        let pbulk_weight = var_opt!(String::from, "PBULK_WEIGHT");
-        let multi_version = var_vec!(String::from, "MULTI_VERSION");
+        let pkg_location = ( match shim_get ( & map , "PKG_LOCATION" ) { None => None , Some ( v ) => match PkgPath :: new ( v ) { Ok ( __p ) => Some ( __p ) , Err ( __e ) => { return Err ( shim_de_custom ( __e ) ) ; } } } );
+        let pkg_skip_reason = shim_get_string ( & map , "PKG_SKIP_REASON" );
+        let pkg_fail_reason = shim_get_string ( & map , "PKG_FAIL_REASON" );
+        let no_bin_on_ftp = shim_get_string ( & map , "NO_BIN_ON_FTP" );
+        let restricted = shim_get_string ( & map , "RESTRICTED" );
+        let categories = shim_get_string ( & map , "CATEGORIES" );
+        let maintainer = shim_get_string ( & map , "MAINTAINER" );
+        let use_destdir = shim_get_string ( & map , "USE_DESTDIR" );
+        let bootstrap_pkg = shim_get_string ( & map , "BOOTSTRAP_PKG" );
+        let usergroup_phase = shim_get_string ( & map , "USERGROUP_PHASE" );
+        let scan_depends = ( match shim_get ( & map , "SCAN_DEPENDS" ) { None => Vec :: new ( ) , Some ( v ) => shim_words_paths ( v ) } );
+        let pbulk_weight = shim_get_string ( & map , "PBULK_WEIGHT" );
+        let multi_version = ( match shim_get ( & map , "MULTI_VERSION" ) { None => Vec :: new ( ) , Some ( v ) => shim_words_strings ( v ) } );
 
         /* DEPENDS is filled out by whatever parses this struct */
         let depends = vec![];
 
+        proof {
+            assert(all_depends@ =~= (match kv_spec(t, "ALL_DEPENDS"@) { None => Seq::<Depend>::empty(), Some(v) => deps_upto(words(v), words(v).len() as int)->Some_0 }));
+            assert(vpaths(scan_depends@) =~= (match kv_spec(t, "SCAN_DEPENDS"@) { None => Seq::<Seq<u8>>::empty(), Some(v) => words_utf8(words(v)) }));
+            assert(vstrs(multi_version@) =~= (match kv_spec(t, "MULTI_VERSION"@) { None => Seq::<Seq<char>>::empty(), Some(v) => words(v) }));
+            assert(depends@ =~= Seq::<PkgName>::empty());
+        }
         Ok(ScanIndex {
             pkgname,
             pkg_location,
@@ -306,17 +523,26 @@ pub proof fn lemma_pkgname_lit() ensures "PKGNAME="@ == PKGNAME_EQ() { reveal_st
         })
     }
 //@ end
-//@ watch src/scanindex.rs : impl ScanIndex fn str_to_index
-    fn str_to_index(input: &str) -> io::Result<ScanIndex> {
-        let index = StrDeserializer::<serde::de::value::Error>::new(input);
-        let index = ScanIndex::deserialize(index).map_err(|e| {
-            std::io::Error::new(
-                std::io::ErrorKind::InvalidData,
-                format!("Failed to parse: {}", e),
-            )
-        })?;
+
+//@ extract src/scanindex.rs : impl ScanIndex fn str_to_index
+//@ rewrite D9.str_deserializer_new D9.deserialize_map_err_io
+    fn str_to_index(input: &str) -> (r: io::Result<ScanIndex>)
+        ensures (match index_of(input@) { Some(v) => r is Ok && r->Ok_0.view() == v, None => r is Err })
+    {
+        let index = shim_str_deserializer ( input );
+        let index = ( match ScanIndex :: deserialize ( index ) { Ok ( __v ) => __v , Err ( __e ) => { return Err ( shim_invalid_data ( __e ) ) ; } } );
         Ok(index)
     }
 //@ end
+}
+/// a rejected item rejects every longer prefix
+pub proof fn lemma_deps_fail(ws: Seq<Seq<char>>, n: int, m: int)
+    requires 1 <= n <= m <= ws.len(), deps_upto(ws, n) is None
+    ensures deps_upto(ws, m) is None
+    decreases m - n
+{
+    if n < m { lemma_deps_fail(ws, n, m - 1); }
+}
 
+} // verus!
 fn main() {}
